@@ -145,6 +145,9 @@ def verify_one(fid, repo):
         print('left-subset' if r['status'] != 'checker-crash' else 'crash')
         return
     bad = [o for o in r['obligations'] if o['status'] != 'discharged']
+    if any(res == 'unsat' for _, res in r.get('sat_checks', [])):
+        print('killed:vacuous-hypotheses(checker-error in vcheck)')      # contradictory path facts: vcheck reports CHECKER-ERROR, never "held"
+        return
     if not r['obligations']:
         print('left-subset')
     elif bad:
